@@ -7,6 +7,7 @@ import (
 
 	"github.com/hack-pad/hackpadfs"
 	"github.com/hack-pad/hackpadfs/cache"
+	"github.com/hack-pad/hackpadfs/keyvalue"
 	"github.com/hack-pad/hackpadfs/mem"
 )
 
@@ -275,4 +276,45 @@ func VerifC17CacheHandle() {
 	_, err = f.Stat()
 	verifAssert(err == nil, "Stat on the handle returned by the first Open failed")
 	verifAssert(f.Close() == nil, "Close of the handle returned by the first Open failed")
+}
+
+// VerifC17ClosedFailing: a handle of a keyvalue.FS whose store goes down (every call fails from some point
+// on, possibly while the handle still has something the store rejected): Close releases the handle whatever
+// it returns - like os.File, whose descriptor is gone also when close(2) reports an error - so every later
+// call fails with an error matching ErrClosed.
+func VerifC17ClosedFailing() {
+	store := pNewStore()
+	fs, err := keyvalue.NewFS(store)
+	verifAssert(err == nil, "keyvalue.NewFS failed")
+	verifAssert(hackpadfs.WriteFullFile(fs, "f", verifBytes("data", 2), 0644) == nil, "WriteFullFile failed")
+	f, err := fs.OpenFile("f", hackpadfs.FlagReadWrite, 0)
+	verifAssert(err == nil, "OpenFile failed")
+	if verifChoice("outage", 2) == 1 {
+		verifTag("outage", "before the last write")
+		store.failing = true
+	}
+	switch verifChoice("before-close", 4) {
+	case 1:
+		verifTag("before-close", "Write")
+		_, _ = hackpadfs.WriteFile(f, []byte{7, 7, 7})
+	case 2:
+		verifTag("before-close", "Truncate")
+		_ = hackpadfs.TruncateFile(f, 1)
+	case 3:
+		verifTag("before-close", "Chmod")
+		_ = hackpadfs.ChmodFile(f, 0600)
+	}
+	store.failing = true
+	_ = f.Close() // may report the store's refusal; the handle is released all the same
+	verifReach("closed")
+	K := verifParam("K")
+	for i := 0; i < K; i++ {
+		id := verifName("c", i)
+		c := verifChoice(id+".call", len(c17Calls))
+		verifTag("call", c17Calls[c])
+		err := c17Call(f, id, c)
+		verifReach("post-close-call")
+		verifAssert(err != nil, "a call on a closed handle succeeded")
+		verifAssert(errors.Is(err, hackpadfs.ErrClosed), "the error of a call on a closed handle must match ErrClosed (os.File's does)")
+	}
 }
